@@ -95,7 +95,7 @@ def available_kex():
 def group_prime(alg):
     """modulus of a fixed group (only used to aim edits at p-1 / p), or None"""
     import re
-    m = re.match(r'diffie-hellman-group(\d+)-', alg)
+    m = re.match(r'diffie-hellman-group(\d+)-', alg.decode() if isinstance(alg, bytes) else alg)
     if not m:
         return None
     try:
@@ -177,7 +177,7 @@ def is_exact(fam, spec):
         return True
     if spec[0] == 'kex':
         return not is_sig_field(fam, spec)
-    return spec[0] == 'msg'
+    return False
 
 
 def make_edit(spec, fam, alg):
@@ -611,6 +611,8 @@ def stage_sweep(ctx, rec, aead):
                     gcases.append('(%d, %d, %d)' % (pref, mx, f[2].bit_length()))
             if ctx.cov['samples'] is not None and len(ctx.cov['samples']) < 6 and spec[0] != 'byte':
                 ctx.sample({'kex': kex, 'edit': spec, 'completed': completed, 'client': r.c_exc, 'views_equal': same})
+    ctx.log(f'sweep: {nsess} sessions, {napplied} edits applied, {ncompleted} completed, {stalls} stalled; '
+            f'{len(sweep_cases)} sweep cases, {len(hcases)} hash cases for Coq')
     co = ctx.cov['oracle']
     co.update(sweep_sessions=nsess, sweep_edits_applied=napplied, sweep_completed=ncompleted, sweep_stalled=stalls)
     bad = ctx.coq_cases('sweep', IMPORTS, 'chk_sweep', sweep_cases, ty='view * view * bool * bool', shard=60)
@@ -885,16 +887,20 @@ def run(ctx):
     ]
     ctx.prove()
     stage_codec(ctx)
+    ctx.log('codec stage done')
     aead = aead_ciphers()
     rec = W.Recorder()
     try:
         if not rec.install():
             ctx.log('kex registry not found: exchange-hash recording disabled')
         stage_sweep(ctx, rec, aead)
+        ctx.log('sweep stage done')
         stage_negotiate(ctx, rec, aead)
+        ctx.log('negotiate stage done')
     finally:
         rec.uninstall()
     stage_minissh(ctx)
+    ctx.log('minissh stage done')
 
 
 def replay(rp):
